@@ -642,6 +642,15 @@ func runC10(c *ctx, r *Report) error {
 		if err := pjStandard(c, r, n/3); err != nil {
 			return err
 		}
+		// runs over several files sharing the caches: AL.ProjRun (AL.Props.C10Files) against one real Linter, file after file
+		nRun := 120
+		if !c.quick {
+			nRun = 4000
+		}
+		if err := pjRunTie(c, r, nRun); err != nil {
+			return err
+		}
+		r.Rule += fmt.Sprintf("; %d runs of 2–3 files (generated callers, sometimes a well-formed callee itself; directed: two files referring to the same missing / unparseable callee in both orders) through one Linter file after file vs AL.ProjRun.callsRun (op callsrun): per file the workflow-call diagnostics and the expression diagnostics the look-ups add", nRun)
 		r.Rule += fmt.Sprintf("; %d generated caller workflows in a scratch repository whose jobs call / need well-formed, broken and missing local workflows (a third of them after the called workflows were linted by the same linter) against AL.ProjCall — AL.Props.C10Once: a callee's own defect at most once per file, and the same diagnostics whether the callee's interface was in the cache or read from its file", n/3)
 		r.Rule += fmt.Sprintf("; %d generated called workflows (a third well-formed by construction; every spelling of required / default / type / null sections / repeated and unknown keys / on: forms) plus 20 directed ones: interface read from the file (FindMetadata) vs taken from the AST (WriteWorkflowCallEvent) vs the Lean model AL.CallMeta of both (op callmeta); on every one the parser accepts without a diagnostic (no alias / !!binary) the two real interfaces must be equal", n)
 	}
